@@ -86,6 +86,14 @@ func (w *World) ruleCgoExtents(rule string) {
 				}
 				key := fmt.Sprintf("%s/cgo:%s/arg%d", fnKey(fn), cname, j)
 				av := stripConv(a)
+				for k := 0; k < 3; k++ {
+					// pointer produced by an accessor the rules do not know (`h.cPtr()` returning &h[0])
+					if in := helperValue(av); in != nil {
+						av = stripConv(in)
+						continue
+					}
+					break
+				}
 				if isNilConst(av) {
 					w.check(ps[j].Nullable, rule, key, c.Pos(), "NULL allowed for this parameter", "NULL passed for a C parameter that is dereferenced")
 					continue
@@ -707,7 +715,27 @@ func reviewedExtentException(fn *ssa.Function, base ssa.Value) (string, bool) {
 			"s.getQualifiedKeys(qualified)#2": "E-Count (as above): every per-participant list receives one entry per qualified dealer",
 		},
 	}
-	if t, ok := table[fn.Name()]; ok {
+	// the reviewed argument is about the exported operation; code moved into a helper that only this operation
+	// calls is still covered (the exception follows the call chain up through helpers the rules do not know)
+	owner := fn
+	for hops := 0; hops < 3 && isNewHelper(owner); hops++ {
+		cs := gWorld.callersOfCached(owner)
+		if len(cs) == 0 {
+			break
+		}
+		up := cs[0].Parent()
+		same := true
+		for _, c := range cs {
+			if c.Parent() != up {
+				same = false
+			}
+		}
+		if !same {
+			break
+		}
+		owner = up
+	}
+	if t, ok := table[owner.Name()]; ok {
 		if why, ok := t[name]; ok {
 			return "reviewed exception " + why, true
 		}
